@@ -47,6 +47,10 @@ THEOREMS = [
         "table_generic_1x1", "table_tlr_1x1",
         # relabelling invariance (lean/PEval/Lemmas/ClassificationSim.lean): the tables speak about ALL inputs of their shapes
         "pairing_relabelling_invariant", "pairing_index_form", "pair_table_rows_present", "table_pairing_is_model",
+        # label-correct (TP) count vs equal-label count: maximum of the count the metrics use, the FP-label case exactly,
+        # uuid-first maximality
+        "tp_eq_equal_plus_fp_only", "tp_eq_equal_of_no_fp_label", "tlr_tp_maximum", "tlr_tp_exact",
+        "tlr_tp_maximum_up_to_fp", "tlr_tp_not_maximal_with_fp_label", "tlr_tp_not_maximal_1x1", "tlr_uuid_first_maximum",
     ]
 ] + ["PEval.ClassificationDT.skel_eq_model_on_index"]
 TRUSTED = [
